@@ -7,6 +7,7 @@ import Nuts.Model.Tx
 import NutsProofs.Lemmas.MergeKV
 import NutsProofs.Lemmas.MergeReads
 import NutsProofs.Lemmas.MergeReopen
+import NutsProofs.Facts
 namespace NutsProofs.C15
 open Nuts Nuts.Model Nuts.Model.DB
 
@@ -218,5 +219,16 @@ theorem C15_witness_merge :
     visKV (merge s 5 [10, 11, 12]).1.kv = visKV s.kv := by
   intro ops s
   refine ⟨by decide +kernel, by decide +kernel, by decide +kernel, by decide +kernel, by decide +kernel⟩
+
+/-- **regenerated tie of the record filter.** Which records Merge drops is decided by `isFilter`; the model's
+`isFilter` is, for every record and every clock, the kernel regenerated from `DB.isFilterEntry` on this run
+(`NutsProofs.Facts.isFilter_is_kernel`). The Merge theorems above are therefore about the filter the code has
+now: a flag added to or removed from `isFilterEntry`, or a changed expiry test, breaks this obligation. -/
+theorem C15_filter_is_regenerated (r : Rec) (now : Nat) :
+    isFilter r now =
+      ((NutsGen.K.db_isFilterEntry.run r.flag r.ttl r.ts (isExpired r.ttl r.ts now)
+          r.flag r.flag r.flag r.flag r.flag r.flag r.flag r.flag).vals == [1]) :=
+  NutsProofs.Facts.isFilter_is_kernel r now
+
 
 end NutsProofs.C15
